@@ -26,3 +26,82 @@ Definition from_u32_m (n : Z) : option Z :=
 (** Unicode scalar values *)
 Definition is_scalar (n : Z) : Prop := 0 <= n < 55296 \/ 57344 <= n <= 1114111.
 Definition is_scalarb (n : Z) : bool := ((0 <=? n) && (n <? 55296)) || ((57344 <=? n) && (n <=? 1114111)).
+
+(* ------------------------------------------------------------------------------------- *)
+(** * Results of functions that can panic *)
+
+(** which argument [non_char_boundary_panic] names *)
+Inductive blame : Type := BIndex | BStart | BEnd.
+Inductive panic : Type :=
+| PBoundary (who : blame) (i : Z)   (** "<who> `<i>` is not on a char boundary" *)
+| POverflow.                        (** arithmetic overflow (dev profile) *)
+Inductive res (A : Type) : Type :=
+| Ok (a : A)
+| Panic (p : panic)
+| OutOfFuel.                        (** the model's loop bound was too small (proved unreachable) *)
+Arguments Ok {A} a.
+Arguments Panic {A} p.
+Arguments OutOfFuel {A}.
+
+(* ------------------------------------------------------------------------------------- *)
+(** * Char-boundary tests (konst_kernel/src/string.rs) *)
+
+(** [bytes[i]] (only ever evaluated under a bounds guard) *)
+Definition byte_at (s : list Z) (i : Z) : Z := nth (Z.to_nat i) s 0.
+
+(** [byte_is_char_boundary!(b)] = [(b as i8) >= -0x40] *)
+Definition as_i8 (b : Z) : Z := if b <? 128 then b else b - 256.
+Definition byte_is_boundary (b : Z) : bool := -64 <=? as_i8 b.
+
+(** (the short-circuit operators are written as [if]: the byte is only read under its guard)
+    [__is_char_boundary_bytes] (strict: [position == len] ok, [position > len] false) *)
+Definition is_char_boundary_m (s : list Z) (i : Z) : bool :=
+  if i =? zlen s then true
+  else if i <? zlen s then byte_is_boundary (byte_at s i) else false.
+
+(** [__is_char_boundary_forgiving] ([position >= len] ok) *)
+Definition forgiving_m (s : list Z) (i : Z) : bool :=
+  if zlen s <=? i then true else byte_is_boundary (byte_at s i).
+
+(** [__find_next_char_boundary]: [loop { position += 1; if forgiving(position) { break position } }].
+    Every iteration moves right and any position >= len is accepted, so [S (length bytes)]
+    iterations suffice when started inside the string (Proofs/CharsProofs.v
+    [find_next_chunk]; every caller in chars_methods.rs starts at 0, so the [usize]
+    overflow of [position += 1] at usize::MAX is unreachable and not modelled). *)
+Fixpoint find_next_go (fuel : nat) (s : list Z) (pos : Z) : res Z :=
+  match fuel with
+  | O => OutOfFuel
+  | S f => let pos' := pos + 1 in
+           if forgiving_m s pos' then Ok pos' else find_next_go f s pos'
+  end.
+Definition find_next_m (s : list Z) (pos : Z) : res Z := find_next_go (S (length s)) s pos.
+
+(** [__find_prev_char_boundary]:
+    [position = position.saturating_sub(1); while !forgiving(position) { position -= 1 }]
+    ([position -= 1] at 0 is an overflow panic in the dev profile). *)
+Fixpoint find_prev_go (fuel : nat) (s : list Z) (pos : Z) : res Z :=
+  match fuel with
+  | O => OutOfFuel
+  | S f => if forgiving_m s pos then Ok pos
+           else if pos =? 0 then Panic POverflow
+           else find_prev_go f s (pos - 1)
+  end.
+Definition find_prev_m (s : list Z) (pos : Z) : res Z :=
+  find_prev_go (S (length s)) s (Z.max 0 (pos - 1)).
+
+(* ------------------------------------------------------------------------------------- *)
+(** * Decoding one character (konst/src/string/chars_methods.rs [string_to_usv]) *)
+
+(** note the mask 0x7F (not 0x3F) on the second byte of the two-byte arm, as in the Rust;
+    the last arm is the non-"debug"-feature value 0 *)
+Definition string_to_usv_m (e : list Z) : Z :=
+  match e with
+  | [a] => a
+  | [a; b] => Z.lor (Z.shiftl (Z.land a 31) 6) (Z.land b 127)
+  | [a; b; c] =>
+      Z.lor (Z.lor (Z.shiftl (Z.land a 15) 12) (Z.shiftl (Z.land b 63) 6)) (Z.land c 63)
+  | [a; b; c; d] =>
+      Z.lor (Z.lor (Z.lor (Z.shiftl (Z.land a 7) 18) (Z.shiftl (Z.land b 63) 12))
+                   (Z.shiftl (Z.land c 63) 6)) (Z.land d 63)
+  | _ => 0
+  end.
